@@ -408,6 +408,32 @@ macro_rules! trivial_elem {
         }
     };
 }
+// ---------- B1: one byte, no drop glue (pointer arithmetic in bytes == in elements) ----------
+#[derive(Clone, Copy, Default, PartialEq, Debug)]
+pub struct B1(pub u8);
+
+// ---------- Pn: 8 bytes, NO drop glue, but Default / Clone / PartialEq are caller code that can fault ----------
+#[derive(Debug)]
+pub struct Pn(pub i64);
+impl Clone for Pn {
+    fn clone(&self) -> Self {
+        tick(KIND_CLONE, "Clone");
+        Pn(self.0)
+    }
+}
+impl Default for Pn {
+    fn default() -> Self {
+        tick(KIND_DEFAULT, "Default");
+        Pn(0)
+    }
+}
+impl PartialEq for Pn {
+    fn eq(&self, other: &Self) -> bool {
+        tick(KIND_EQ, "Eq");
+        self.0 == other.0
+    }
+}
+
 trivial_elem!(Unit, "unit", |_v: i64| Unit, |_s: &Unit| "_".to_string(), |_f: i64, e: Unit| e);
 trivial_elem!(Zd, "zd", |_v: i64| Zd::make(), |_s: &Zd| "_".to_string(), |_f: i64, e: Zd| e);
 trivial_elem!(W24, "w24", |v: i64| W24([v as u64, 0x1111, 0x2222]), |s: &W24| {
@@ -416,3 +442,5 @@ trivial_elem!(W24, "w24", |v: i64| W24([v as u64, 0x1111, 0x2222]), |s: &W24| {
     }
     format!("a{}", s.0[0] as i64)
 }, |f: i64, e: W24| W24([(e.0[0] as i64 + 1_000_000 * (f - 9)) as u64, e.0[1], e.0[2]]));
+trivial_elem!(B1, "b1", |v: i64| B1(v as u8), |s: &B1| format!("a{}", s.0), |f: i64, e: B1| B1((e.0 as i64 + 37 * (f - 9)) as u8));
+trivial_elem!(Pn, "pn", |v: i64| Pn(v), |s: &Pn| format!("a{}", s.0), |f: i64, e: Pn| Pn(e.0 + 1_000_000 * (f - 9)));
